@@ -12,6 +12,7 @@ package main
 import (
 	"flag"
 	"fmt"
+	"google.golang.org/protobuf/encoding/protowire"
 
 	"github.com/canopy-network/canopy/fsm"
 	"github.com/canopy-network/canopy/lib"
@@ -124,14 +125,15 @@ func main() {
 			signed := good  // payload the signers really sign
 			kind := "valid"
 			signerIdx := sim.AllSigners(vs)
-			bitmapExtra := []int{}  // committee indices set in the bitmap WITHOUT a signature
+			bitmapExtra := []int{} // committee indices set in the bitmap WITHOUT a signature
 			padBits := false
 			wrongLen := false
 			attachBlock, attachResults := true, true
 			swapResults := false
 			otherBlockHeight := false
+			secondHeader := false
 			if !last {
-				switch r.Intn(20) {
+				switch r.Intn(22) {
 				case 0: // subset exactly at the threshold
 					signerIdx = sim.SignersForPower(vs, vs.MinimumMaj23)
 					kind = "subset-at-maj23"
@@ -231,6 +233,12 @@ func main() {
 				case 19:
 					otherBlockHeight = true
 					kind = "block-of-other-height"
+				case 20, 21:
+					// the certified block bytes followed by a SECOND occurrence of the header field (protobuf merges repeated
+					// embedded messages: last value per field wins) and possibly one more transaction: the hash computed from the raw
+					// bytes is still the certified one, the block that would be decoded, validated and applied is another
+					secondHeader = true
+					kind = "second-header-occurrence"
 				}
 			}
 			// ---- build it with real signatures
@@ -239,6 +247,24 @@ func main() {
 				BlockHash: present.blockHash, ResultsHash: present.resultHash, ProposerKey: present.proposer}
 			blockBytes := p.Block
 			blockHeight := goodView.Height
+			if secondHeader {
+				b2 := new(lib.Block)
+				_ = lib.Unmarshal(p.Block, b2)
+				over := &lib.BlockHeader{Time: b2.BlockHeader.Time + 1 + uint64(r.Intn(5))}
+				merged := new(lib.Block)
+				_ = lib.Unmarshal(p.Block, merged)
+				merged.BlockHeader.Time = over.Time
+				merged.BlockHeader.Hash = nil
+				if hh, e := merged.BlockHeader.SetHash(); e == nil {
+					over.Hash = hh
+				}
+				ob, _ := lib.Marshal(over)
+				extra := protowire.AppendBytes(protowire.AppendTag(nil, 1, protowire.BytesType), ob)
+				if r.Bool() && len(b2.Transactions) > 0 {
+					extra = protowire.AppendBytes(protowire.AppendTag(extra, 2, protowire.BytesType), b2.Transactions[0])
+				}
+				blockBytes = append(append([]byte{}, p.Block...), extra...)
+			}
 			if otherBlockHeight {
 				b2 := new(lib.Block)
 				_ = lib.Unmarshal(p.Block, b2)
@@ -334,8 +360,15 @@ func main() {
 					txSize += len(t)
 				}
 				// b_applies: the honest proposal applies iff it is the unmodified block at this node's height
-				applies := !otherBlockHeight
-				blkLit = fmt.Sprintf("(Some (mkBlock %s %s %d %d true %d %s))", hN(hb), hN(hb), blockHeight, bb.BlockHeader.NetworkId, txSize, sim.CoqBool(applies))
+				applies := !otherBlockHeight && !secondHeader
+				// the hash of the header as decoded (merged), which is what the block that would be applied carries
+				hd := hb
+				if secondHeader {
+					if x, e := bb.Hash(); e == nil {
+						hd = x
+					}
+				}
+				blkLit = fmt.Sprintf("(Some (mkBlock %s %s %d %d true %d %s))", hN(hb), hN(hd), blockHeight, bb.BlockHeader.NetworkId, txSize, sim.CoqBool(applies))
 			}
 			certLit := fmt.Sprintf("(mkCert %s %s %s %s true %s %s %s %s %s)", viewLit(qc.Header), hN(present.blockHash), hN(present.resultHash), hN(present.proposer),
 				resLit, blkLit, sim.CoqBool(lenOK), sim.CoqList(bits), sim.CoqList(sigs))
